@@ -7,8 +7,10 @@
    2^62 ns starting at [lo].  [step gc] is the mirror of Allow/cleanup
    ([gc = false] skips the passes); [arrivals h rs] pairs arrivals with their
    decisions; [admitted a evs] counts admissions of address [a]. *)
+From Coq Require Import String.
 From WG Require Import Base.Prelude Gen.Constants.
 From WG Require Import Ratelimit.Model Ratelimit.Spec Ratelimit.Proofs Ratelimit.Conc.
+From WG Require Import Ratelimit.Ast Gen.RlAst Ratelimit.AstProofs.
 From WG Require Ratelimit.Collector.
 From WG Require Import Ratelimit.ConcVariants.
 Local Open Scope Z_scope.
@@ -143,6 +145,40 @@ Theorem C19_collector_stuck_without_stop :
   Collector.stuckb true (Collector.run true Collector.init Collector.stuck_schedule) = false.
 Proof. exact Collector.collector_stuck_without_stop. Qed.
 Print Assumptions C19_collector_stuck_without_stop.
+
+(* THE TIE TO THE SOURCE (translator harness/cmd/rlast, rerun on every check):
+   Gen.RlAst.allow_body is the body of Ratelimiter.Allow of
+   ratelimiter/ratelimiter.go, Gen.RlAst.cleanup_entry_body / cleanup_cond the
+   per-entry part of cleanup(), as terms of the deep-embedded language of
+   Ratelimit/Ast.v (int64 += / -= wrapping, time.Sub saturating, map lookup and
+   insert, lock operations skipped by the sequential interpreter).  For ALL
+   tables, addresses and clock values the interpreted source is the model ... *)
+Theorem C19_source_allow_is_the_model : forall t n a now,
+  run_allow allow_body t n a now = Some (allow_t t a now).
+Proof. exact ast_allow_correct. Qed.
+Print Assumptions C19_source_allow_is_the_model.
+
+Theorem C19_source_cleanup_entry_is_the_model : forall e n now,
+  run_cleanup_entry cleanup_entry_var cleanup_entry_body e n now = Some (if keep e now then Some e else None).
+Proof. exact ast_cleanup_entry_correct. Qed.
+Print Assumptions C19_source_cleanup_entry_is_the_model.
+
+(* ... the constants the translator evaluated from the const block are those the
+   Go compiler reported (Gen/Constants.v) ... *)
+Theorem C19_source_constants_agree :
+  c_packetsPerSecond = Z.of_N rl_packetsPerSecond /\ c_packetsBurstable = Z.of_N rl_packetsBurstable /\
+  c_garbageCollectTime = gcTime /\ c_packetCost = cost /\ c_maxTokens = maxTokens.
+Proof. exact consts_agree. Qed.
+Print Assumptions C19_source_constants_agree.
+
+(* ... and for every history of arrivals and collection passes, from any state,
+   interpreting the source never stops and gives the model's run: the theorems
+   above (envelope, spaced-never-refused, independence, collection invisible)
+   are theorems about the interpreted source. *)
+Theorem C19_source_run_is_the_model : forall gc ops s,
+  ast_run gc s ops = Some (run (Model.step gc) s ops).
+Proof. exact ast_run_correct. Qed.
+Print Assumptions C19_source_run_is_the_model.
 
 (* ---- non-vacuity ---- *)
 (* a valid history with a burst, the 50 ms edge, a pass at the 1 s edge and a
